@@ -92,10 +92,26 @@ func ruleA6(r *Run, p *Prog, rels []string) {
 				// narrowing under a dominating bound that fits the target (e.g. byte(v) under v <= 23)
 				_, tb, _ := intRangeBits(cv.Type(), p.sizes)
 				fs, _, _ := intRangeBits(cv.X.Type(), p.sizes)
-				okc = hasCmp(necessaryCmps(f, cv), func(op token.Token, x, y ssa.Value) bool {
+				ts, _, _ := intRangeBits(cv.Type(), p.sizes)
+				_, fb, _ := intRangeBits(cv.X.Type(), p.sizes)
+				cs := necessaryCmps(f, cv)
+				upper := hasCmp(cs, func(op token.Token, x, y ssa.Value) bool {
 					n, isN := constInt(y)
-					return isN && sameValue(x, cv.X) && (op == token.LEQ || op == token.LSS) && n >= 0 && n < (int64(1)<<uint(tb-1)) && !fs
+					return isN && sameValue(x, cv.X) && (op == token.LEQ || op == token.LSS) && n >= 0 && n < (int64(1)<<uint(tb-1))
 				})
+				// a signed value under a dominating `>= 0` (the negative case was split off before)
+				nonNeg := !fs || hasCmp(cs, func(op token.Token, x, y ssa.Value) bool {
+					n, isN := constInt(y)
+					return isN && sameValue(x, cv.X) && ((op == token.GEQ && n >= 0) || (op == token.GTR && n >= -1))
+				})
+				switch {
+				case upper && nonNeg:
+					okc = true
+				case fs && nonNeg && !ts && tb >= fb-1:
+					okc = true // non-negative signed value into an unsigned type at least as wide
+				case fs && nonNeg && ts && tb >= fb:
+					okc = true
+				}
 			}
 			r.Ob("A6", FnName(f)+"/conv:"+types.TypeString(cv.X.Type(), shortQual)+"→"+types.TypeString(cv.Type(), shortQual), p.Pos(cv.Pos()), okc, true,
 				tern(okc, "value-preserving widening of the logged integer", "the logged "+types.TypeString(cv.X.Type(), shortQual)+" is converted to "+types.TypeString(cv.Type(), shortQual)+", which cannot represent all of its values: some integers are encoded as different numbers"))
